@@ -1,6 +1,7 @@
 """C20 - shipped date-time format constraints 931-935 judge the instant, not its notation."""
 
 import asyncio
+import re
 from datetime import datetime
 
 from vf import evaluators as E
@@ -256,24 +257,56 @@ def hostile(rng):
     return "".join(rng.choice("0123456789-:+TZ .abcXYZ\t\nä−") for _ in range(rng.randint(0, 30)))
 
 
+_ISO_DATE = re.compile(r"(?:(\d{4})-(\d{2})-(\d{2})|(\d{4})(\d{2})(\d{2})|\d{4}-?W\d{2}(?:-?[1-7])?)\Z", re.ASCII)
+_ISO_TIME = re.compile(r"(\d{2})(?:(?::(\d{2})(?::(\d{2}))?)|(?:(\d{2})(\d{2})?))?([.,]\d+)?\Z", re.ASCII)
+_ISO_OFFSET = re.compile(r"(?:([Zz])|([+-])(\d{2})(?:(?::(\d{2})(?::(\d{2}))?)|(?:(\d{2})(\d{2})?))?(\.\d+)?)\Z", re.ASCII)
+
+
 def justify(s):
     """
-    Is a *fulfilled* verdict on s defensible at all? Only if s parses as an aware datetime with whole seconds. Returns
-    None (not a datetime with offset), "unspecified" (fractional seconds / outside 1996-2037: the property does not fix the verdict)
-    or (t, off).
+    Is a *fulfilled* verdict on s defensible at all? Only if s is an ISO-8601 / RFC-3339 datetime with UTC offset. Decided by a
+    recogniser of its own (NOT by datetime.fromisoformat, which the code under test uses and which is lenient: any character as
+    separator, one surplus character after a complete group, a trailing NUL). Generous where notations are debatable (calendar dates
+    extended or basic, week dates, 'T' / 't' / blank, reduced precision, '.' or ',' fractions, offsets Z / +hh / +hhmm / +hh:mm[:ss]).
+    Returns None (no such datetime), "unspecified" (a notation or instant for which the statement does not fix the verdict: week dates,
+    fractions, outside 1996-2037) or (t, off).
     """
-    try:
-        dt = datetime.fromisoformat(s)
-    except (ValueError, TypeError):
+    if not isinstance(s, str) or len(s) < 12 or len(s) > 64:
         return None
-    if dt.tzinfo is None or dt.utcoffset() is None:
+    # date | separator | time | offset: the offset starts at the last 'Z' / 'z' or at the last sign after the separator
+    sep = next((i for i in (10, 8, 7) if len(s) > i and s[i] in "Tt " and _ISO_DATE.match(s[:i])), None)
+    if sep is None:
         return None
-    off_td = dt.utcoffset()
-    off = off_td.days * 86400 + off_td.seconds
-    if dt.microsecond or off_td.microseconds:
+    rest = s[sep + 1 :]
+    cut = max(rest.rfind("+"), rest.rfind("-"))
+    if rest[-1:] in "Zz":
+        cut = len(rest) - 1
+    if cut <= 0:
+        return None
+    mt, mo = _ISO_TIME.match(rest[:cut]), _ISO_OFFSET.match(rest[cut:])
+    md = _ISO_DATE.match(s[:sep])
+    if not mt or not mo:
+        return None
+    if md.group(1) is None and md.group(4) is None:
+        return "unspecified"  # week date
+    y, m, d = (int(x) for x in (md.group(1, 2, 3) if md.group(1) else md.group(4, 5, 6)))
+    hh = int(mt.group(1))
+    mi = int(mt.group(2) or mt.group(4) or 0)
+    se = int(mt.group(3) or mt.group(5) or 0)
+    if not (1 <= m <= 12 and 1 <= d <= 31 and hh <= 23 and mi <= 59 and se <= 59):
+        return None
+    if d > [31, 29 if (y % 4 == 0 and (y % 100 != 0 or y % 400 == 0)) else 28, 31, 30, 31, 30, 31, 31, 30, 31, 30, 31][m - 1] or y < 1:
+        return None
+    if mt.group(6) or (mo.group(8) if not mo.group(1) else None):
         return "unspecified"
-    local = B.days_from_civil(dt.year, dt.month, dt.day) * 86400 + dt.hour * 3600 + dt.minute * 60 + dt.second
-    t = local - off
+    if mo.group(1):
+        off = 0
+    else:
+        oh, om, osec = int(mo.group(3)), int(mo.group(4) or mo.group(6) or 0), int(mo.group(5) or mo.group(7) or 0)
+        if oh > 23 or om > 59 or osec > 59:
+            return None
+        off = (oh * 3600 + om * 60 + osec) * (-1 if mo.group(2) == "-" else 1)
+    t = B.days_from_civil(y, m, d) * 86400 + hh * 3600 + mi * 60 + se - off
     if not B.T_1996 <= t < B.T_2038:
         return "unspecified"
     return t, off
